@@ -96,6 +96,8 @@ pub enum Op {
     ForeignAck { kind: AckKind, other_slot: usize },
     CloseChannel,
     Yield,
+    /// wait until the controller opens this gate
+    Gate(u64),
 }
 
 #[derive(Clone, Debug, PartialEq)]
@@ -843,6 +845,10 @@ impl WorkerCtx {
             }
             Op::Yield => {
                 simrt::yield_point("client.yield");
+                OpResult::Unit
+            }
+            Op::Gate(id) => {
+                simrt::gate_wait(*id);
                 OpResult::Unit
             }
         }
